@@ -134,7 +134,12 @@ pub fn gen(idx: u64, rng: &mut Rng, _tier: Tier) -> Scn {
         }
         3 => {
             // malformed
-            chan.p_mutate_header = rng.log_uniform(0.005, 0.3);
+            if rng.chance(0.6) {
+                chan.p_mutate_header = rng.log_uniform(0.005, 0.3);
+            }
+            if chan.p_mutate_header == 0.0 || rng.chance(0.4) {
+                chan.p_field_edit = rng.log_uniform(0.01, 0.3);
+            }
             chan.p_corrupt = if rng.chance(0.5) { rng.log_uniform(0.005, 0.2) } else { 0.0 };
             chan.p_truncate = if rng.chance(0.5) { rng.log_uniform(0.005, 0.2) } else { 0.0 };
             chan.p_extend = if rng.chance(0.3) { rng.log_uniform(0.005, 0.1) } else { 0.0 };
